@@ -51,7 +51,7 @@ BUFS = [16, 120, 128, 242, 243, 248, 255, 256, 499, 504, 512]
 
 
 def plan(tier):
-    n = 70 if tier == "quick" else 5000
+    n = 600 if tier == "quick" else 30000
     return [(c, n) for c in CLASSES]
 
 
